@@ -15,6 +15,7 @@ Notation: `basis S d a` is element `a` of `all_gellmann_matrix(d)` (order sym ++
 matrix; `coef S d A a` is entry `a` of `matrix_to_gellmann_basis(A)`.
 -/
 import NumqiProofs.GellmannComplex
+import NumqiProofs.GellmannPerturb
 import Mathlib.LinearAlgebra.Matrix.Kronecker
 
 namespace Numqi.C16
@@ -120,6 +121,25 @@ theorem tensor2_orthogonal (S : Scalars R) (hS : S.Valid d) (hd : 1 ≤ d) {a b 
       = if a = a' ∧ b = b' then 4 else 0 := by
   rw [← Matrix.mul_kronecker_mul, Matrix.trace_kronecker, basis_orthogonal S hS hd ha ha', basis_orthogonal S hS hd hb hb']
   by_cases h1 : a = a' <;> by_cases h2 : b = b' <;> simp [h1, h2]; norm_num
+
+/-! ### bridge to the instance that the driver executes
+
+`Driver/C16.lean` runs the model with `floatScalars d` (binary64 square roots taken as exact rationals).  These do **not** satisfy `Scalars.Valid`
+for `d ≠ 2` (a binary64 number squared is not `2/(k(k+1))`), so the theorems above are about the exact instance `complexScalars d`; the two
+instances are related quantitatively: the outputs differ by at most `δ·(size of the coefficients)`, `δ` = largest deviation of a scalar, and the
+harness measures `δ ≤ 4.4e-16` on every run (op `scal`). -/
+
+/-- synthesis with two scalar records (same `i`) whose square-root scalars differ by at most `δ`: entrywise difference `≤ δ Σ_k (k+2)|v_k|` -/
+theorem synthesis_float_bridge (S S' : Scalars ℂ) (hI : S.I = S'.I) (δ : ℝ) (hD : ∀ k, ‖S.cD k - S'.cD k‖ ≤ δ) (hcI : ‖S.cI - S'.cI‖ ≤ δ)
+    (v : Nat → ℂ) (r c : Fin d) :
+    ‖synthesis S d v r c - synthesis S' d v r c‖ ≤ δ * ∑ k : Fin d, ((k.val : ℝ) + 2) * ‖diagCoef d v k‖ :=
+  synthesis_perturb S S' hI δ hD hcI v r c
+
+/-- analysis likewise: coefficientwise difference `≤ δ · d · Σ_l |A_ll|` (only the diagonal coefficients depend on the square roots) -/
+theorem analysis_float_bridge (S S' : Scalars ℂ) (hh : S.half = S'.half) (hI : S.I = S'.I) (δ : ℝ)
+    (hD : ∀ k, ‖S.aD k - S'.aD k‖ ≤ δ) (haI : ‖S.aI - S'.aI‖ ≤ δ) (A : Mat d ℂ) (a : Nat) :
+    ‖(analysis S d A).getD a 0 - (analysis S' d A).getD a 0‖ ≤ δ * ((d : ℝ) * ∑ l : Fin d, ‖A l l‖) :=
+  analysis_perturb S S' hh hI δ hD haI A a
 
 /-! ### non-vacuity: ℂ with the real square roots is a valid instance for every `d ≥ 1` -/
 
